@@ -983,7 +983,7 @@ def run_c16(tier):
         # the test-suite and std programs with tail calls: static clause only
         tests, _, _, loose = corpus_tests()
         extra = [p for p in tests + loose if "^" in " ".join(p["lines"])] + corpus_std()[:1]
-    violations, m, drifts = c16_pipeline(check, shapes, "c16", keep_large=200000 if tier == "thorough" else 3000)
+    violations, m, drifts = c16_pipeline(check, shapes, "c16", keep_large=200000 if tier == "thorough" else 20000)
     if extra:
         r = pipeline(check, extra, "c16x", static_only=True, tlc_procs=2, tlc_workers=6)
         violations += [v for v in r["violations"] if v["rule"] == "tailcall_height"]
